@@ -7,6 +7,11 @@ local now = tonumber(ARGV[3])
 local requested = tonumber(ARGV[4])
 local fill_time = capacity/rate
 local ttl = math.floor(fill_time*2)
+-- SETEX rejects a zero ttl, which made the whole script fail when rate > 2*capacity;
+-- one second is enough in that case, the bucket refills completely within a second.
+if ttl < 1 then
+    ttl = 1
+end
 local last_tokens = tonumber(redis.call("get", KEYS[1]))
 if last_tokens == nil then
     last_tokens = capacity
